@@ -292,8 +292,9 @@ func (b *backend) apply(o opT) (res obsT) {
 // ---- the LevelDB scratch database --------------------------------------------
 
 type ldbEnv struct {
-	dir string
-	db  *dbm.GoLevelDB
+	dir   string
+	db    *dbm.GoLevelDB
+	cases int
 }
 
 func newLdbEnv() (*ldbEnv, error) {
@@ -322,8 +323,29 @@ func (e *ldbEnv) reopen() dbm.DB {
 	return db
 }
 
-// clear empties the database through the underlying library (not through the code under test)
+// fresh replaces the database by a new, empty one in a new directory
+func (e *ldbEnv) fresh() {
+	e.db.Close()
+	os.RemoveAll(e.dir)
+	dir, err := os.MkdirTemp("", "verif-c20-ldb")
+	if err != nil {
+		panic(err)
+	}
+	e.dir = dir
+	if e.db, err = dbm.NewGoLevelDB("c20", dir); err != nil {
+		panic(err)
+	}
+}
+
+// clear empties the database through the underlying library (not through the code under test).
+// Deleted entries stay in LevelDB's log as tombstones (iterators must skip them: part of what is
+// exercised), so every few hundred cases the database is replaced by a fresh one.
 func (e *ldbEnv) clear() {
+	e.cases++
+	if e.cases%400 == 0 {
+		e.fresh()
+		return
+	}
 	it := e.db.DB().NewIterator(nil, nil)
 	var keys [][]byte
 	for it.Next() {
@@ -891,7 +913,7 @@ func runC20(c *Ctx) error {
 		record(cs, true)
 	}
 
-	total := c.N(2400, 9000)
+	total := c.N(2000, 6000)
 	for i := 0; i < total; i++ {
 		cs := g.genCase()
 		env.runCase(cs)
@@ -912,7 +934,7 @@ func runC20(c *Ctx) error {
 			{kind: kPut, k: []byte("a"), v: []byte("1")}, {kind: kPut, k: []byte("ab"), v: []byte{}}, {kind: kPut, k: []byte("b"), v: []byte("2")},
 			{kind: kBSet, k: []byte("a\xff"), v: []byte("3")}, {kind: kBDel, k: []byte("a")}}}
 		count := 0
-		const modelEvery = 149
+		const modelEvery = 251
 		for pi, pre := range preambles {
 			var rec func(seq []opT, depth int)
 			rec = func(seq []opT, depth int) {
@@ -937,10 +959,11 @@ func runC20(c *Ctx) error {
 		c.Stats.Extra["exhaustive_sequences"] = count
 	}
 
-	// degenerate-stream guard (a broken check, not a violation)
+	// degenerate-stream guard (a broken check, not a violation); the stream statistics are taken
+	// from what the backends return, so they mean nothing once the oracle has failed
 	d := c.Stats.Distribution
-	if d["iter-start.positioned-on-entry"] < total/10 || d["iter-start.seek-found-nothing"] < total/20 ||
-		d["get.present"] == 0 || d["get.present-empty"] == 0 || d["get.absent"] == 0 || d["op.batch-write"] < total/4 {
+	if d["oracle.fail"] == 0 && (d["iter-start.positioned-on-entry"] < total/10 || d["iter-start.seek-found-nothing"] < total/20 ||
+		d["get.present"] == 0 || d["get.present-empty"] == 0 || d["get.absent"] == 0 || d["op.batch-write"] < total/4) {
 		return fmt.Errorf("degenerate input stream: %v", d)
 	}
 	c.Stats.Rule = "a case is a sequence of up to 40 operations of dbm.DB (get, set/setSync, delete/deleteSync, batch set/delete/write/new, Iterator, IteratorPrefix, forward IteratorPrefixWithStart) run on a fresh MemDB and on an emptied GoLevelDB; keys from a small pool sharing prefixes (\"\", a, ab, ab\\x00, a\\xff, a\\xff\\xff, \\xff..., b, ...) plus random keys over {00,a,b,fe,ff}; nil, empty, short and long values; prefixes that are keys / proper prefixes / nil / empty / key+byte; starts nil, empty, equal to / before / inside / at the limit of / beyond the prefix range. distinct = distinct operation sequence; non-trivial = some iteration yields at least one entry or some get finds a key. Oracle: every observable (get: nil or bytes; iteration: Key/Value of the fresh iterator, Key/Value after each successful Next, Next staying false) is equal on the two real backends, no panic."
